@@ -12,6 +12,7 @@ package main
 // against one writer; the recorded history is checked read by read.
 
 import (
+	"bufio"
 	"bytes"
 	"context"
 	"errors"
@@ -414,26 +415,50 @@ func splitProg(s string) []string {
 	return strings.Split(s, ".")
 }
 
-// execSchedCase runs one forced schedule.
+// execSchedCase runs one forced schedule; a run in which a goroutine outside the
+// scheduler's control performed a rotation step is void and repeated.
 func execSchedCase(c *ctx, line, prop string, f []string) string {
+	for attempt := 0; ; attempt++ {
+		var buf bytes.Buffer
+		sub := &ctx{out: bufio.NewWriter(&buf), seed: c.seed, n: c.n, tier: c.tier, stats: map[string]int{}, work: c.work, curID: c.curID}
+		obs, void := execSchedOnce(sub, line, prop, f)
+		if void && attempt < 3 {
+			c.stat("void_case_retried")
+			continue
+		}
+		sub.out.Flush()
+		c.out.Write(buf.Bytes())
+		for k, v := range sub.stats {
+			c.stats[k] += v
+		}
+		return obs
+	}
+}
+
+func execSchedOnce(c *ctx, line, prop string, f []string) (string, bool) {
 	if len(f) != 3 {
-		return "badinput"
+		return "badinput", false
 	}
 	setup, progs, schedule := splitProg(f[0]), strings.Split(f[1], ","), f[2]
 	baseG := runtime.NumGoroutine()
 	vfs, meta := newMemVFS(), newMemMeta()
 	hist := newHistory()
 	vfs.onSynced = hist.onSynced
+	// rotation goroutines of earlier cases (all their WALs are closed) must be gone before
+	// this case adopts "the" rotation goroutine
+	for k := 0; k < 2000 && countGoroutines("raft-wal.(*WAL).runRotate") > 0; k++ {
+		time.Sleep(50 * time.Microsecond)
+	}
 	oldRot := gidsMatching("raft-wal.(*WAL).runRotate")
 	env, err := openEnv(vfs, meta)
 	if err != nil {
-		return "openerr"
+		return "openerr", false
 	}
 	o := &opCtx{env: env, h: hist}
 	for _, op := range setup {
 		if out := runOp(o, nil, op); !strings.HasPrefix(out, "ok") {
 			env.w.Close()
-			return "setuperr:" + out
+			return "setuperr:" + out, false
 		}
 		env.waitRotation()
 	}
@@ -599,7 +624,7 @@ func execSchedCase(c *ctx, line, prop string, f []string) string {
 	if os.Getenv("WH_TRACE") != "" {
 		fmt.Fprintf(os.Stderr, "%s\n  %s\n", line, strings.Join(s.trace, " "))
 	}
-	return sb.String()
+	return sb.String(), atomic.LoadInt32(&s.stray) != 0
 }
 
 // reopenCheck: what the reference log holds must be readable after Open.
